@@ -754,8 +754,10 @@ def np_argsort(ex, st, args, kwargs):
     """np.argsort of a 1-D array: the permutation that sorts ascending, ties by position.  (numpy's default sort is
     not stable for all sizes; for the tiny arrays of VOPy's uses insertion sort is used, which is stable.)"""
     a = L.as_arr(args[0])
-    if a.ndim != 1 or kwargs:
+    kw = {k: v for k, v in kwargs.items() if not (k == "kind" and v in (None, "stable", "mergesort", "quicksort")) and not (k == "axis" and v in (-1, 0))}
+    if a.ndim != 1 or kw:
         raise Unsupported("argsort of non-1-D / with options")
+    kwargs = {}
     c = concrete_fallback("numpy.argsort", args, kwargs)
     if c is not _SYM:
         return c
@@ -1229,6 +1231,34 @@ def t_einsum(ex, st, args, kwargs):
     raise Unsupported("einsum " + str(spec))
 
 
+def t_argsort(ex, st, args, kwargs):
+    kw = {k: v for k, v in kwargs.items() if k not in ("stable", "dim", "descending")}
+    if kwargs.get("descending") or kwargs.get("dim", -1) not in (-1, 0) or kw:
+        raise Unsupported("torch.argsort options")
+    return _torchify(L.as_arr(np_argsort(ex, st, [args[0]], {})))
+
+
+def t_unique_consecutive(ex, st, args, kwargs):
+    a = L.as_arr(args[0])
+    vals = [x if isinstance(x, int) else V.conc(x) for x in a.flat()]
+    if a.ndim != 1 or not all(isinstance(v, int) for v in vals):
+        for x in a.flat():
+            if isz(x) and z3.is_int(x) and V.conc(x) is None:
+                raise _sx().NeedConcreteInt(x)
+        raise Unsupported("torch.unique_consecutive on symbolic values")
+    u, c = [], []
+    for v in vals:
+        if u and u[-1] == v:
+            c[-1] += 1
+        else:
+            u.append(v)
+            c.append(1)
+    ua, ca = _torchify(L.mk(u, (len(u),), "i")), _torchify(L.mk(c, (len(c),), "i"))
+    return (ua, ca) if kwargs.get("return_counts") else ua
+
+
+NP["torch.argsort"] = t_argsort
+NP["torch.unique_consecutive"] = t_unique_consecutive
 NP.update({"torch.tensor": t_tensor, "torch.cat": t_cat, "torch.stack": t_stack, "torch.empty": t_empty,
            "torch.eye": t_eye, "torch.unique": t_unique, "torch.einsum": t_einsum})
 NP["scipy.optimize.minimize"] = sp_minimize
